@@ -817,6 +817,9 @@ impl ReCompiler {
                         max,
                         match_length,
                     )))
+                } else if min >= 1 {
+                    // repeating a zero-length test is the same as doing it once
+                    Ok(ret)
                 } else {
                     // otherwise need to match with nothing
                     Ok(Operation::from(Nothing))
